@@ -408,20 +408,18 @@ prop("C10",
          H("c10_table_text_is_ascii", PS, bounds="every byte offset of TEXT"),
          H("c10_node_label_no_panic", PS, bounds="every node index, real node_label"),
          H("c10_table_twin", PS, twin=True, bounds="every node index"),
-         H("c10_syn_two_labels", PS, bounds="synthetic table {c, b.c, *.d, !a.d}; names L.L with letters over {a,b,c,d,x}"),
-         H("c10_syn_three_labels", PS, bounds="synthetic table; names L.L.L"),
-         H("c10_syn_four_labels", PS, tier="thorough", bounds="synthetic table; names L.L.L.L"),
      ],
      functions=["ListProvider::<T>::{public_suffix, find, node_label}", "<ListProvider<T> as EffectiveTLDProvider>::effective_tld_plus_one",
                 "the generated constants TLDList::{NODES, CHILDREN, TEXT, NUM_TLD}"],
      stubs=[],
-     explanation="(b) well-formedness of the shipped table as one inductive step of 'no lookup can index out of bounds' (symbolic node / children / text "
-                 "index into the real constants); (a) the real generic lookup code instantiated with a 4-rule synthetic table (normal, longer, wildcard, "
-                 "exception) against a reference PSL matcher on shaped names",
+     explanation="well-formedness of the shipped table as one inductive step of 'no lookup can index out of bounds' (symbolic node / children / text "
+                 "index into the real constants, real node_label on every node index)",
      outside=["rule-by-rule agreement of the 9.8k-rule compiled table with public_suffix_list.dat: a finite comparison of concrete lookups, a solver adds nothing "
               "to it and symbolic strings over the 30 kB TEXT constant are out of reach - NOT decided; a bit flip that keeps the table well-formed is not detected",
-              "free-form strings (empty labels, leading/trailing dots), Unicode input, names longer than four labels", "sortedness of sibling labels"],
-     level_text="PARTIAL claim: table well-formedness and the lookup algorithm on a synthetic table; agreement of the shipped table's contents with the .dat file is not decided.",
+              "the lookup algorithm itself (public_suffix / effective_tld_plus_one): str::rfind / contains / comparisons on symbolic strings do not finish in CBMC even for "
+              "3-byte names over a 4-node synthetic table (measured, 300 s); the harnesses are kept in the splice file but not registered",
+              "Unicode input, sortedness of sibling labels"],
+     level_text="PARTIAL claim: well-formedness of the shipped table only; neither the lookup algorithm nor the table's agreement with the .dat file is decided.",
      )
 
 SM = "utils::serde::verif_proofs"
